@@ -64,7 +64,11 @@ def run(prop, tier, seed, work, ev):
             for text in ("sum(@)", "avg(@)", "max(@)", "min(@)", "sort(@)", "abs(@[0])", "ceil(@[0])", "floor(@[0])", "to_string(@)", "@[0] < @[1]",
                          "@[0] == @[1]", "map(&abs(@), @)", "sum(@) > avg(@)", "[sum(@), avg(@)]", "to_number(to_string(@[0]))", "length(@)", "join(',', map(&to_string(@), @))"):
                 f.write(json.dumps({"e": "total", "text": common.cps(text), "doctext": common.cps(doc)}) + "\n")
-    rejects += run_and_judge("numeric magnitude at the edge of the double / 64-bit integer range", c, "search", work, ev, drv)
+        for sdoc in ("18446744073709551615", "18446744073709551616", "30000000000000000000", "99999999999999999999", "9223372036854775807", "9223372036854775808", "-9223372036854775809",
+                     "100000000000000000000", "1" + "0" * 400, "0" * 25 + "7", "-" + "9" * 20, "1e400", "-1e400", "1" * 19, "1" * 21, "00", "-0", "+1", "1_0", "0x10", "1e", "Infinity", "NaN"):
+            for text in ("to_number(@)", "[@, @] | [*].to_number(@)", "sort_by([@], &to_number(@))", "to_number(to_string(to_number(@)))", "to_number(@) > `0`", "sum([to_number(@) || `0`])"):
+                f.write(json.dumps({"e": "total", "text": common.cps(text), "doctext": common.cps(json.dumps(sdoc))}) + "\n")
+    rejects += run_and_judge("numeric magnitude at the edge of the double / 64-bit integer range; to_number on digit strings around the 64-bit limits and far beyond", c, "search", work, ev, drv)
     # results with shared sub-values: n chained doublings have 2^n paths and n containers; nothing may walk every path
     c = work.path("sharing.cases")
     with open(c, "w") as f:
